@@ -55,7 +55,7 @@ func vxPackFrame(seq int32, method string, body []byte) []byte {
 // input partly consumed with bytes left in its read buffer) and closed is
 // handed out again for another connection: it behaves like a fresh one - no
 // id, swap entry or buffered input byte of the previous use shows.
-// args: nSecret, leftover(0 none, 1 previous connection had unread buffered bytes)
+// args: nSecret, leftover(0 none, 1 previous connection had unread buffered bytes)[, lateAccess(0/1: the previous owner uses Swap/SetID after Close)]
 func VX_C20_Socket(args []int) {
 	vxPoolMode(1)
 	secret := vxBytes("secret", args[0])
@@ -72,6 +72,11 @@ func VX_C20_Socket(args []int) {
 	vxAssume(s.ReadMessage(m) == nil && m.Seq() == 1)
 	vxAssume(s.Close() == nil)
 	vxAssert(c1.closed, "closing the pooled socket closes its connection")
+	if len(args) > 2 && args[2] == 1 {
+		// the previous owner touches the socket once more after closing it
+		s.Swap().Store("late", string(secret))
+		s.SetID("alice-again")
+	}
 	// next user
 	c2 := &vxSConn{remote: "bob:2"}
 	c2.in = vxPackFrame(7, "/b", []byte("bob's"))
@@ -81,7 +86,8 @@ func VX_C20_Socket(args []int) {
 	vxAssert(r.ID() == f.ID() && r.ID() == "bob:2", "recycled socket has the default id of its new connection")
 	vxAssert(r.SwapLen() == 0 && r.Swap().Len() == 0, "recycled socket carries no swap entry")
 	_, had := r.Swap().Load("token")
-	vxAssert(!had, "previous user's swap entry is not observable")
+	_, had2 := r.Swap().Load("late")
+	vxAssert(!had && !had2, "previous user's swap entry is not observable")
 	vxAssert(r.Raw() == net.Conn(c2) && r.RemoteAddr().String() == "bob:2", "recycled socket is bound to the new connection")
 	rm, fm := NewMessage(vxBytesBody()), NewMessage(vxBytesBody())
 	re, fe := r.ReadMessage(rm), f.ReadMessage(fm)
